@@ -207,6 +207,31 @@ def commitIndex (s : Schema) (t : Name) (nm : Option (Name × Src)) (cols : List
     indexes := (setPk s t isPk).indexes ++ [{ table := t, name := nm.map (·.1), src := (nm.map (·.2)).getD .norm, cols := cols,
                                               isPk := isPk, isUnique := uniq }] }
 
+/-- the name `add_index` passes on: `True` means `None`; `None` gets the provider's default name unless primary key -/
+def indexNameOf (d : Dialect) (t : Name) (arg : IdxArg) (cols : List Name) (isPk : PkKind) (isUnique : Option Bool)
+    (m2m : Bool) : Option (Name × Src) :=
+  match arg with
+  | .name n => some (n, .explicit)
+  | _ => if isPk ≠ .no then none
+         else some (defaultIndexName d t cols false (isUnique.getD false) m2m, .norm)
+
+/-- `DBIndex.__init__` (+ `Constraint.__init__`) when `columns not in table.indexes` -/
+def newIndex (s : Schema) (t : Name) (tbl : Table) (nm : Option (Name × Src)) (cols : List Name) (isPk : PkKind)
+    (isUnique : Option Bool) : Except Err Schema :=
+  if cols = [] then .error ⟨"AssertionError", "index-no-columns"⟩
+  else if isPk ≠ .no ∧ tbl.pkSet then .error ⟨"DBSchemaError", "pk-already-defined"⟩
+  else if isPk ≠ .no ∧ isUnique = some false then .error ⟨"DBSchemaError", "pk-not-unique"⟩
+  else if nameTaken s (nm.map (·.1)) then .error ⟨"DBSchemaError", "index-name-in-use"⟩
+  else .ok (commitIndex s t nm cols isPk (if isPk ≠ .no then true else isUnique.getD false))
+
+/-- `if index and index.name == index_name and index.is_pk == is_pk and index.is_unique == is_unique: return index`,
+    otherwise `DBIndex.__init__` fails on the existing key -/
+def sameIndex (s : Schema) (ix : Index) (nm : Option (Name × Src)) (cols : List Name) (isPk : PkKind)
+    (isUnique : Option Bool) : Except Err Schema :=
+  if ix.name = nm.map (·.1) ∧ ix.isPk = isPk ∧ some ix.isUnique = isUnique then .ok s
+  else if cols = [] then .error ⟨"AssertionError", "index-no-columns"⟩
+  else .error ⟨"DBSchemaError", "index-exists"⟩
+
 /-- `Table.add_index` followed by `DBIndex.__init__` (+ `Constraint.__init__`).
     `cols` are column names; the lookup `column_dict[name]` of `get_columns` is included (KeyError). -/
 def addIndex (d : Dialect) (s : Schema) (t : Name) (arg : IdxArg) (cols : List Name) (isPk : PkKind)
@@ -214,28 +239,28 @@ def addIndex (d : Dialect) (s : Schema) (t : Name) (arg : IdxArg) (cols : List N
   match findTable s t with
   | none => .error ⟨"Precondition", "no-such-table"⟩
   | some tbl =>
-  if cols.any (fun c => !(tableCols s t).any (·.name == c)) then .error ⟨"KeyError", "no-such-column"⟩
-  else if arg = .false then .error ⟨"AssertionError", "index-name-false"⟩
-  else
-    -- `if index_name is True: index_name = None`; default name unless primary key
-    let nm : Option (Name × Src) := match arg with
-      | .name n => some (n, .explicit)
-      | _ => if isPk ≠ .no then none
-             else some (defaultIndexName d t cols false (isUnique.getD false) m2m, .norm)
-    let name := nm.map (·.1)
-    let existing := (tableIdx s t).find? (·.cols == cols)
-    -- `if index and index.name == index_name and index.is_pk == is_pk and index.is_unique == is_unique: return index`
-    match existing with
-    | some ix =>
-        if ix.name = name ∧ ix.isPk = isPk ∧ some ix.isUnique = isUnique then .ok s
-        else if cols = [] then .error ⟨"AssertionError", "index-no-columns"⟩
-        else .error ⟨"DBSchemaError", "index-exists"⟩
-    | none =>
-      if cols = [] then .error ⟨"AssertionError", "index-no-columns"⟩
-      else if isPk ≠ .no ∧ tbl.pkSet then .error ⟨"DBSchemaError", "pk-already-defined"⟩
-      else if isPk ≠ .no ∧ isUnique = some false then .error ⟨"DBSchemaError", "pk-not-unique"⟩
-      else if nameTaken s name then .error ⟨"DBSchemaError", "index-name-in-use"⟩
-      else .ok (commitIndex s t nm cols isPk (if isPk ≠ .no then true else isUnique.getD false))
+    if cols.any (fun c => !(tableCols s t).any (·.name == c)) then .error ⟨"KeyError", "no-such-column"⟩
+    else if arg = .false then .error ⟨"AssertionError", "index-name-false"⟩
+    else
+      match (tableIdx s t).find? (·.cols == cols) with
+      | some ix => sameIndex s ix (indexNameOf d t arg cols isPk isUnique m2m) cols isPk isUnique
+      | none => newIndex s t tbl (indexNameOf d t arg cols isPk isUnique m2m) cols isPk isUnique
+
+def fkNameOf (d : Dialect) (child : Name) (cols : List Name) : Option Name → Name × Src
+  | some n => (n, .explicit)
+  | none => (defaultFkName d child cols, .norm)
+
+/-- the registration part of `ForeignKey.__init__` -/
+def commitFk (s : Schema) (child : Name) (nm : Name × Src) (cols : List Name) (parent : Name) (parentCols : List Name) : Schema :=
+  { s with names := s.names ++ [nm.1],
+           fks := s.fks ++ [{ table := child, name := some nm.1, src := nm.2, cols := cols, parent := parent, parentCols := parentCols }] }
+
+/-- `if index_name is not False: if all(columns[:n] != child_columns for columns in child_table.indexes): add_index(...)` -/
+def fkIndex (d : Dialect) (s1 : Schema) (child : Name) (cols : List Name) (index : IdxArg) (m2m : Bool) : Except Err Schema :=
+  if index = .false then .ok s1
+  else if (tableIdx s1 child).all (fun ix => ix.cols.take cols.length != cols) then
+    addIndex d s1 child index cols .no (some false) m2m
+  else .ok s1
 
 /-- `Table.add_foreign_key` followed by `ForeignKey.__init__`, including the implicit index on the child columns -/
 def addFk (d : Dialect) (s : Schema) (child : Name) (fkName : Option Name) (cols : List Name)
@@ -244,24 +269,12 @@ def addFk (d : Dialect) (s : Schema) (child : Name) (fkName : Option Name) (cols
   | none, _ => .error ⟨"Precondition", "no-such-table"⟩
   | _, none => .error ⟨"Precondition", "no-such-table"⟩
   | some ctbl, some _ =>
-  if cols.any (fun c => !(tableCols s child).any (·.name == c)) then .error ⟨"KeyError", "no-such-column"⟩
-  else if parentCols.any (fun c => !(tableCols s parent).any (·.name == c)) then .error ⟨"KeyError", "no-such-column"⟩
-  else
-    let nm : Name × Src := match fkName with
-      | some n => (n, .explicit)
-      | none => (defaultFkName d child cols, .norm)
-    if parentCols.length ≠ cols.length then .error ⟨"DBSchemaError", "fk-column-count"⟩
+    if cols.any (fun c => !(tableCols s child).any (·.name == c)) then .error ⟨"KeyError", "no-such-column"⟩
+    else if parentCols.any (fun c => !(tableCols s parent).any (·.name == c)) then .error ⟨"KeyError", "no-such-column"⟩
+    else if parentCols.length ≠ cols.length then .error ⟨"DBSchemaError", "fk-column-count"⟩
     else if (tableFks s child).any (·.cols == cols) then .error ⟨"DBSchemaError", "fk-exists"⟩
-    else if nm.1 ∈ s.names then .error ⟨"DBSchemaError", "fk-name-in-use"⟩
-    else
-      let s1 : Schema := { s with names := s.names ++ [nm.1],
-                                  fks := s.fks ++ [{ table := child, name := some nm.1, src := nm.2, cols := cols,
-                                                     parent := parent, parentCols := parentCols }] }
-      -- `if index_name is not False: if all(columns[:n] != child_columns for columns in child_table.indexes): add_index(...)`
-      if index = .false then .ok s1
-      else if (tableIdx s1 child).all (fun ix => ix.cols.take cols.length != cols) then
-        addIndex d s1 child index cols .no (some false) ctbl.isM2m
-      else .ok s1
+    else if (fkNameOf d child cols fkName).1 ∈ s.names then .error ⟨"DBSchemaError", "fk-name-in-use"⟩
+    else fkIndex d (commitFk s child (fkNameOf d child cols fkName) cols parent parentCols) child cols index ctbl.isM2m
 
 /-- `m2m_table.m2m.add(attr)` -/
 def markM2m (s : Schema) (t : Name) : Schema := updTable s t (fun t => { t with isM2m := true })
